@@ -33,28 +33,64 @@ Proof. exact @deque_no_crash. Qed.
 Print Assumptions c12_deque_no_runtime_error.
 
 (* "the capacity stays a power of two no smaller than the configured minimum and no smaller
-   than the length" (0 before the first allocation); cfg d0 is the configured minimum:
-   minCap, or minCapacity for the zero value; it is itself a power of two >= minCapacity *)
+   than the length".  The minimum is configured by NewDeque and, on a live deque, by
+   SetMinCapacity(e), which is an operation of the histories (SetMinCap e).
+   (a) every history: the capacity is 0 (nothing allocated yet) or a power of two, at least
+   minCapacity and at least the length; the minimum in force cfg (minCap, or minCapacity for a
+   zero value that has not allocated) is a power of two >= minCapacity *)
 Theorem c12_cap :
   forall (A : Type) (nilv : A) (d0 : deque) (ops : list (op A)),
     wf d0 -> R d0 [] ->
     let d := fst (run nilv d0 ops) in
-    (cap d = 0 \/ (pow2 (cap d) /\ cfg d0 <= cap d /\ count d <= cap d)) /\
-    pow2 (cfg d0) /\ collections_queue_minCapacity <= cfg d0.
+    (cap d = 0 \/ (pow2 (cap d) /\ collections_queue_minCapacity <= cap d /\ count d <= cap d)) /\
+    pow2 (cfg d) /\ collections_queue_minCapacity <= cfg d.
 Proof. exact @deque_capacity. Qed.
 Print Assumptions c12_cap.
 
+(* (b) what the code guarantees about the minimum, after any history and for any next call:
+   a call other than SetMinCapacity keeps the minimum in force, allocates at no less than it,
+   never shrinks below it, and keeps "capacity >= minimum" (above) once it holds;
+   SetMinCapacity changes nothing but the minimum — capacity, length and contents stay, so
+   right after raising the minimum above the current capacity the deque is below it, and it
+   can only grow (not shrink) until it is at or above it again *)
+Theorem c12_minimum_step :
+  forall (A : Type) (nilv : A) (d0 : deque) (ops : list (op A)) (o : op A),
+    wf d0 -> R d0 [] ->
+    let d := fst (run nilv d0 ops) in
+    let d' := fst (step nilv d o) in
+    ((forall e, o <> SetMinCap e) ->
+       cfg d' = cfg d /\
+       (cap d = 0 -> cap d' = 0 \/ cfg d' <= cap d') /\
+       (cap d' < cap d -> cfg d' <= cap d') /\
+       (above d -> above d')) /\
+    (forall e, o = SetMinCap e ->
+       cap d' = cap d /\ count d' = count d /\ contents nilv d' = contents nilv d).
+Proof. exact @deque_minimum_step. Qed.
+Print Assumptions c12_minimum_step.
+
+(* (c) hence, for histories that do not call SetMinCapacity, the capacity is never below the
+   minimum configured at construction *)
+Theorem c12_cap_configured :
+  forall (A : Type) (nilv : A) (d0 : deque) (ops : list (op A)),
+    wf d0 -> R d0 [] -> above d0 -> no_set_min ops ->
+    let d := fst (run nilv d0 ops) in
+    cap d = 0 \/ cfg d0 <= cap d.
+Proof. exact @deque_capacity_configured. Qed.
+Print Assumptions c12_cap_configured.
+
 (* "on zero-value and sized deques": the zero value and NewDeque(capacity, minimum) for all
    arguments up to 2^62 (beyond, Go's int overflows in the rounding loop) start empty and
-   well-formed, with minCap a power of two >= minCapacity and >= minimum *)
+   well-formed, with minCap a power of two >= minCapacity and >= minimum, and with capacity 0 or
+   >= that minimum *)
 Theorem c12_initial_deques :
   forall (A : Type) (nilv : A),
-    (wf (@zero_deque A) /\ R (@zero_deque A) []) /\
+    (wf (@zero_deque A) /\ R (@zero_deque A) [] /\ above (@zero_deque A)) /\
     forall capacity minimum, capacity <= 2 ^ 62 -> minimum <= 2 ^ 62 ->
       exists d, new_deque nilv capacity minimum = Some d /\ wf d /\ R d [] /\
-                pow2 (minCap d) /\ collections_queue_minCapacity <= minCap d /\ minimum <= minCap d.
+                pow2 (minCap d) /\ collections_queue_minCapacity <= minCap d /\ minimum <= minCap d /\
+                above d.
 Proof.
-  intros A nilv. split; [split; [exact wf_zero | exact R_zero]|exact (new_deque_ok nilv)].
+  intros A nilv. split; [split; [exact wf_zero | split; [exact R_zero|left; reflexivity]]|exact (new_deque_ok nilv)].
 Qed.
 Print Assumptions c12_initial_deques.
 
